@@ -37,6 +37,10 @@ def norm(k):
   return re.sub(r"\s+", "", k)
 
 
+def norm_blank(k):
+  return re.sub(r"[ \t]+", "", k.strip())
+
+
 def ws_variant(rng, key):
   """Whitespace variant of a key that the property says must still match."""
   c_ = rng.random()
@@ -302,7 +306,27 @@ def gen_cases(rng, tier):
         ops = [{"op": opk, "section": s_, "key": newk, "value": "as.constant %s" % spec.fnum(spec.rfloat(rng, 0.5, 9.0))}]
         route = rng.choice(["main", "main", "cli", "api"])
         case = {"model": m, "ops": ops, "route": route, "listing": False, "options_first": False, "respell": [s_, k_, newk]}
-    if route in ("main", "api") and i % 5 == 4 and not case.get("respell") and not case.get("single_variable") and not case.get("lookalike_section"):
+    if i % 13 == 10:
+      # two DIFFERENT items of one section whose keys differ only by white space other than blank / tab inside a label
+      # ('Mg\x0cA-O' next to 'MgA-O'), both addressed in one command: each operation means its own line, as in the file
+      # (seeded change C14r10 merged the two operations into one)
+      items0 = emit.model_items(m)
+      cand = [(si_, k_) for si_, (s_, its) in enumerate(items0) for k_, v_ in its if s_ == "Pair" and "-" in k_]
+      if cand:
+        si_, k_ = cand[0]
+        b_ = k_.split("-", 1)[1]
+        w_ = [u"\x0c", u"\u00a0", u"\x0b", u"\u2009"][(i // 13) % 4]
+        ka, kb = "Qx%sa-%s" % (w_, b_), "Qxa-%s" % b_
+        if (i // 13) % 2:
+          ka, kb = kb, ka
+        items1 = [[s_, [list(x) for x in its] + ([[ka, "as.buck 1100.0 0.3 0.0"], [kb, "as.buck 1200.0 0.3 0.0"]] if j == si_ else [])] for j, (s_, its) in enumerate(items0)]
+        if (i // 13) % 3 == 2:
+          ops = [{"op": "remove", "section": "Pair", "key": ka, "value": None}, {"op": "remove", "section": "Pair", "key": kb, "value": None}]
+        else:
+          ops = [{"op": "override", "section": "Pair", "key": ka, "value": "as.buck 2100.0 0.25 0.0"}, {"op": "override", "section": "Pair", "key": kb, "value": "as.buck 2200.0 0.35 0.0"}]
+        route = ["main", "cli", "main", "api"][(i // 13) % 4]
+        case = {"model": m, "ops": ops, "route": route, "listing": True, "options_first": False, "items_override": items1, "twin_keys": 1}
+    if route in ("main", "api") and i % 5 == 4 and not case.get("respell") and not case.get("twin_keys") and not case.get("single_variable") and not case.get("lookalike_section"):
       # feature interaction: operations that address [Variables] itself, and an item written as ${VAR} that is
       # overridden with exactly the text it currently expands to ("frozen") while VAR is changed or removed
       case["freeze"] = {"tseed": rng.randrange(1 << 30), "force_last_key": (i // 5) % 2 == 0, "clear_variables": (i // 5) % 4 == 1}
@@ -330,6 +354,9 @@ def reference_edit(items, ops, drop_empty):
   def find(sec, key):
     for si, (s, its) in enumerate(secs):
       if s == sec:
+        for ki, (k, v) in enumerate(its):      # blanks and tabs inside a key mean nothing; other white space is part of it
+          if norm_blank(k) == norm_blank(key):
+            return si, ki
         for ki, (k, v) in enumerate(its):
           if norm(k) == norm(key):
             return si, ki
@@ -625,6 +652,8 @@ def run_case(case, ctx):
     ctx.cls("item_added_into_a_lookalike_section")
   if case.get("respell"):
     ctx.cls("key_with_exotic_whitespace_inside")
+  if case.get("twin_keys"):
+    ctx.cls("two_keys_differing_by_exotic_whitespace_both_edited")
   if case.get("single_variable"):
     ctx.cls(("variable_used_through_another_variable_" if case["single_variable"] == 2 else "only_entry_of_variables_") + ops[0]["op"])
   for s_, its in case_items(case):
@@ -718,9 +747,11 @@ def run_case(case, ctx):
         if s.startswith("Table-Form") or s == "Variables":
           hidden += 1
           continue
-        want.append("%s:%s=%s" % (s, norm(k), v.strip()))
-    got_l = sorted(re.sub(r"\s+", " ", l.strip()) for l in lines)
-    want_l = sorted(re.sub(r"\s+", " ", l.strip()) for l in want)
+        want.append("%s:%s=%s" % (s, (norm_blank if case.get("twin_keys") else norm)(k), v.strip()))
+    # (twin keys: white space other than blank / tab is what tells the two keys apart, so it is not folded away here)
+    ws_ = r"[ \t]+" if case.get("twin_keys") else r"\s+"
+    got_l = sorted(re.sub(ws_, " ", l.strip()) for l in lines)
+    want_l = sorted(re.sub(ws_, " ", l.strip()) for l in want)
     if got_l != want_l:
       missing = [x for x in want_l if x not in got_l]
       extra = [x for x in got_l if x not in want_l]
